@@ -292,6 +292,11 @@ func (f *fqInst) evalDirectRaw(prog string) (vs []any) {
 // runCLI = `fq -nc --argjson in V P` through interp.Main (argument parsing, the query rewrite of
 // eval.jq, display with the colorjson encoder). Returns the printed lines and the exit code.
 func runCLI(prog string, inJSON string) (lines []string, exit int, stderr string, panicMsg string) {
+	if strings.HasPrefix(prog, "-") {
+		// an expression argument that starts with `-` is an option to fq's (and jq's) command line parser — C17's
+		// subject; a leading blank keeps it an expression without changing the program
+		prog = " " + prog
+	}
 	o := newVOS("-nc", "--argjson", "in", inJSON, prog)
 	msg, panicked := hlib.Catch(func() string {
 		i, err := interp.New(o, interp.DefaultRegistry)
